@@ -1159,7 +1159,10 @@ pub fn run(out: &mut Out, tier: &str, seed: u64, prop: &str) {
                 // values containing a quote character under every string operator (8 = contains, 9 = not contains:
                 // the literal is printed on the left), alone and inside and/or
                 for key in [1usize, 2, 12] {
-                    for val in ["it's", "O'Neil", "x\"y", "a'", "'", "\"", "x' in os_name or 'y"] {
+                    for val in ["it's", "O'Neil", "x\"y", "a'", "'", "\"", "x' in os_name or 'y",
+                        // an apostrophe TOGETHER with characters an escaping formatter would rewrite (backslash, tab, line break,
+                        // control, combining mark, zero-width joiner): marker strings have no escapes
+                        "C:\\it's", "it's\\", "a\\b'c", "it's\ttab", "l1'\nl2", "e\u{301}'", "a\u{200d}'b", "\u{1}'", "back\\slash", "tab\there"] {
                         for op in 0..SOPS.len() {
                             shapes.push(Term::S(key, op, val.into()));
                             shapes.push(Term::and(Term::S(key, op, val.into()), Term::S(0, 0, "posix".into())));
@@ -1217,7 +1220,7 @@ pub fn run(out: &mut Out, tier: &str, seed: u64, prop: &str) {
                 }
                 // `extra` comparisons whose right-hand side is not a valid extra name are kept verbatim: the same quote
                 // characters there, under both operators, alone and inside and/or
-                for val in ["it's", "O'Neil", "x\"y", "a'", "'", "\"", "a' or extra == 'b", "Not An Extra!", "a b"] {
+                for val in ["it's", "O'Neil", "x\"y", "a'", "'", "\"", "a' or extra == 'b", "Not An Extra!", "a b", "o'neil\\x", "it's\ttab", "e\u{301}'"] {
                     for neg in [false, true] {
                         shapes.push(Term::X(neg, val.into()));
                         shapes.push(Term::and(Term::X(neg, val.into()), Term::S(1, 0, "posix".into())));
